@@ -182,6 +182,8 @@ class H:
 
     def observe(self, t):
         self.ops += ["size %d" % t, "height %d" % t, "iter %d" % t]
+        if self.rng.random() < 0.1:
+            self.ops.append("iterstop %d %d" % (t, self.rng.choice([0, 1, 4])))
 
     def clone(self, t):
         t2 = self.nt; self.nt += 1
@@ -375,6 +377,8 @@ def prof_nav(rng, n, tier):
         h.observe(t)
         for _ in range(rng.randint(2, 6)):
             h.ops.append("seek %d %s" % (t, h.kg.probe()))
+        h.ops.append("seekstop %d %s %d" % (t, h.kg.probe(), rng.choice([0, 1, 3])))
+        h.ops.append("iterstop %d %d" % (t, rng.choice([0, 2, 7])))
         live = sorted(h.ref[t], key=key_sort)
         for k in live[:3] + live[-2:]:
             h.ops.append("seek %d %s" % (t, k))
@@ -443,6 +447,9 @@ def prof_diff(rng, n, tier, persisted=None):
         old = "-" if a is None else str(a)
         h.ops.append("diff %d %s" % (b, old))
         h.ops.append("difflinks %d %s" % (b, old))
+        h.ops.append("diffcur %d %s" % (b, old))
+        h.ops.append("diffstop %d %s %d" % (b, old, rng.choice([0, 0, 1, 2, 5])))
+        h.ops.append("difffail %d %s %d" % (b, old, rng.choice([0, 1, 3, 50])))
         if a is not None:
             h.ops.append("diff %d %d" % (a, b))
             h.ops.append("difflinks %d %d" % (a, b))
@@ -465,7 +472,7 @@ def prof_persist(rng, n, tier):
         h.ops.append("dirty %d" % x)
         h.mkroot(x)                                   # no-op persist of a freshly loaded tree
         for _ in range(rng.randint(1, 4)):
-            kind = rng.choice(["point", "point", "batch", "noop", "reinsert", "drain"])
+            kind = rng.choice(["point", "point", "batch", "noop", "reinsert", "drain", "deltop", "deltop"])
             if kind == "point":
                 for _ in range(rng.randint(1, 5)):
                     c = rng.random()
@@ -478,6 +485,18 @@ def prof_persist(rng, n, tier):
                     h.ops.append("height %d" % x)
             elif kind == "batch":
                 mutate(h, x, rng.randint(1, 12))
+            elif kind == "deltop":
+                # delete the keys of the highest layer (the top node's keys), one persist check after each
+                live = sorted(h.ref[x], key=key_sort)
+                if live:
+                    ml = max(key_layer(k, h.bf) for k in live)
+                    tops = [k for k in live if key_layer(k, h.bf) == ml][:3]
+                    for k in tops[:-1]:
+                        h.dele(x, k)
+                    if tops[:-1]:
+                        h.mkroot(x); x = h.load(h.nr - 1) if rng.random() < 0.5 else x
+                    h.dele(x, tops[-1])
+                    h.ops.append("height %d" % x)
             elif kind == "noop":
                 h.upd(x, same=True); h.del_bad(x); h.get(x)
             elif kind == "reinsert":
